@@ -5,6 +5,7 @@ id="$1"; shift; checks="${*:-$id}"
 base=${WT_BASE:-/tmp/wt}; src=$base/$id/_seeded
 s=/tmp/intake_$id; rm -rf $s; mkdir -p $s/clean $s/mut
 for d in clean mut; do (cd /repo && tar cf - --exclude=.git --exclude=__pycache__ --exclude=examples --exclude=docs --exclude=gallery --exclude=figs .) | (cd $s/$d && tar xf -); done
+mkdir -p $s/clean/_seeded $s/mut/_seeded
 patch -p1 -s -d $s/mut -i $src/patch.diff || { echo "PATCH DOES NOT APPLY"; exit 2; }
 echo "== patch: $(grep -c '^[-+][^-+]' $src/patch.diff) changed lines in $(grep '^+++ ' $src/patch.diff | tr '\n' ' ')"
 sed "s|$base/$id|$s/mut|g" $src/demo.py > $s/demo_mut.py; sed "s|$base/$id|$s/clean|g" $src/demo.py > $s/demo_clean.py
